@@ -393,7 +393,10 @@ pub fn block_for_gc(tls: VMMutatorThread) {
     let e = g.epoch;
     g.parked += 1;
     w.sp_cv.notify_all();
-    while g.epoch == e {
+    // Wait for the GC that was pending when we blocked to end -- and, if another collection has
+    // already been started by the time we wake up, stay parked for that one too (we are counted as
+    // parked, so the next `stop_all_mutators` may already have returned).
+    while g.epoch == e || g.stop_requested {
         g = w.sp_cv.wait(g).unwrap();
     }
     g.parked -= 1;
